@@ -14,8 +14,10 @@ import (
 type History struct {
 	Name    string   `json:"name"`
 	Profile string   `json:"profile"`
+	Pools   Pools    `json:"pools"`
 	Ops     []Op     `json:"ops"`
-	Obs     []uint64 `json:"obs,omitempty"`
+	Obs     []uint64 `json:"obs,omitempty"`  // one 32-bit observation per non-lookup op, plus a final one
+	Rets    []uint64 `json:"rets,omitempty"` // result of every non-lookup op
 	Final   []string `json:"final_dump,omitempty"`
 }
 
@@ -25,6 +27,8 @@ type Outcome struct {
 	Fails   []Failure
 	Panic   string
 	Mutated int // operations that changed the digest
+	Hits    int // lookups that returned a route
+	Misses  int // lookups that returned nothing
 }
 
 // monitorsFor says which property's monitors are evaluated.
@@ -34,44 +38,86 @@ func MonitorsFor(prop string) Monitors {
 	return Monitors{C08: prop == "C08", C09: prop == "C09", C10: prop == "C10"}
 }
 
-// step applies one op with the monitors and appends the observation.
-func step(r *Runner, op Op, mon Monitors, out *Outcome, prev **Dump) {
-	now := r.NowMs()
-	ret := r.Apply(op)
-	out.H.Ops = append(out.H.Ops, op)
-	out.H.Obs = append(out.H.Obs, ret)
-	if IsLookup(op.Code) {
-		d := *prev
-		switch op.Code {
+type runState struct {
+	r    *Runner
+	p    *Pools
+	mon  Monitors
+	out  *Outcome
+	prev *Dump
+	ld   uint64 // digest of the lookups since the previous observation
+	rep  int    // issue every lookup this many times (monitors see all of them)
+}
+
+func (s *runState) lookup(l Op) {
+	r, d := s.r, s.prev
+	n := s.rep
+	if n < 1 {
+		n = 1
+	}
+	var first uint64
+	for k := 0; k < n; k++ {
+		ret := r.Apply(l)
+		if k == 0 {
+			first = ret
+			s.ld = mix(s.ld, ret)
+			if ret == 0 {
+				s.out.Misses++
+			} else {
+				s.out.Hits++
+			}
+		} else if ret != first {
+			s.out.Fails = append(s.out.Fails, Failure{"lookup-unstable", fmt.Sprintf("the same lookup %+v on an unchanged table returned different routes", l)})
+		}
+		switch l.Code {
 		case OpLookup:
-			if mon.C08 {
-				out.Fails = append(out.Fails, CheckCIDRLookup(d, LookupIP(op), r.Last)...)
+			if s.mon.C08 {
+				s.out.Fails = append(s.out.Fails, CheckCIDRLookup(d, LookupIP(l), r.Last)...)
 			}
 		case OpDLookup:
-			if mon.C09 {
-				out.Fails = append(out.Fails, CheckDomainLookup(d, op.Name, r.Last)...)
+			if s.mon.C09 {
+				s.out.Fails = append(s.out.Fails, CheckDomainLookup(d, l.Name, r.Last)...)
 			}
 		case OpFLookup:
-			if mon.C09 {
-				out.Fails = append(out.Fails, CheckKeyedLookup(d, "fwd", op.Name, r.Last)...)
+			if s.mon.C09 {
+				s.out.Fails = append(s.out.Fails, CheckKeyedLookup(d, "fwd", l.Name, r.Last)...)
 			}
 		case OpALookup:
-			if mon.C09 {
-				out.Fails = append(out.Fails, CheckKeyedLookup(d, "agent", fmt.Sprint(op.Agent), r.Last)...)
+			if s.mon.C09 {
+				s.out.Fails = append(s.out.Fails, CheckKeyedLookup(d, "agent", fmt.Sprint(l.Agent), r.Last)...)
 			}
+		}
+	}
+}
+
+// do applies one op with the monitors and appends the observation.
+func (s *runState) do(op Op) {
+	s.out.H.Ops = append(s.out.H.Ops, op)
+	if IsLookup(op.Code) {
+		for _, l := range s.p.Expand(op) {
+			s.lookup(l)
 		}
 		return
 	}
+	r := s.r
+	now := r.NowMs()
+	ret := r.Apply(op)
 	after := r.Dump()
-	h := after.Hash()
-	if h != (*prev).Hash() {
-		out.Mutated++
+	sh := after.Hash()
+	if sh != s.prev.Hash() {
+		s.out.Mutated++
 	}
-	out.H.Obs = append(out.H.Obs, h)
-	if mon.C10 {
-		out.Fails = append(out.Fails, CheckMaintenance(*prev, after, op, ret, now)...)
+	s.out.H.Obs = append(s.out.H.Obs, ObsOf(s.ld, ret, sh))
+	s.out.H.Rets = append(s.out.H.Rets, ret)
+	s.ld = 0
+	if s.mon.C10 {
+		s.out.Fails = append(s.out.Fails, CheckMaintenance(s.prev, after, op, ret, now)...)
 	}
-	*prev = after
+	s.prev = after
+}
+
+func (s *runState) finish() {
+	s.out.H.Obs = append(s.out.H.Obs, ObsOf(s.ld, 0, s.prev.Hash()))
+	s.out.H.Final = s.prev.Flat()
 }
 
 // RunGenerated generates and runs one history online inside a fresh bubble.
@@ -79,80 +125,87 @@ func RunGenerated(t *testing.T, name string, g *Gen, mon Monitors, nMut, lookups
 	out := &Outcome{H: History{Name: name, Profile: g.Profile}}
 	synctest.Test(t, func(t *testing.T) {
 		out.Panic = vh.Recover(func() {
-			r := NewRunner()
-			prev := r.Dump()
+			s := &runState{r: NewRunner(), p: &g.Pools, mon: mon, out: out}
+			s.prev = s.r.Dump()
 			for i := 0; i < nMut; i++ {
-				step(r, g.Next(prev, r.NowMs()), mon, out, &prev)
+				s.do(g.Next(s.prev, s.r.NowMs()))
 				for _, l := range g.Lookups(lookupsPer) {
-					step(r, l, mon, out, &prev)
+					s.do(l)
+				}
+				if i%8 == 7 {
+					for _, l := range g.AllLookups() {
+						s.do(l)
+					}
 				}
 			}
 			for _, l := range g.AllLookups() {
-				step(r, l, mon, out, &prev)
+				s.do(l)
 			}
-			out.H.Final = prev.Flat()
+			s.finish()
 		})
 	})
+	out.H.Pools = g.Pools
 	return out
 }
 
 // RunFixed runs a given list of operations (witnesses, replays). repeatLookups
 // > 1 re-issues every lookup that many times (Go map iteration order is
 // randomised per iteration, so an order-dependent result shows up quickly).
-func RunFixed(t *testing.T, name, profile string, ops []Op, mon Monitors, repeatLookups int) *Outcome {
+func RunFixed(t *testing.T, name, profile string, pools Pools, ops []Op, mon Monitors, repeatLookups int) *Outcome {
 	out := &Outcome{H: History{Name: name, Profile: profile}}
+	for _, op := range ops { // complete the pools before anything refers to them
+		pools.Encode(op)
+	}
 	synctest.Test(t, func(t *testing.T) {
 		out.Panic = vh.Recover(func() {
-			r := NewRunner()
-			prev := r.Dump()
+			s := &runState{r: NewRunner(), p: &pools, mon: mon, out: out, rep: repeatLookups}
+			s.prev = s.r.Dump()
 			for _, op := range ops {
-				n := 1
-				if IsLookup(op.Code) && repeatLookups > 1 {
-					n = repeatLookups
-				}
-				for k := 0; k < n; k++ {
-					step(r, op, mon, out, &prev)
-				}
+				s.do(op)
 			}
-			out.H.Final = prev.Flat()
+			s.finish()
 		})
 	})
+	out.H.Pools = pools
 	return out
 }
 
 // CaseV renders one history as a Gallina term of type RouteTable.case.
 func CaseV(h History) string {
-	var sb strings.Builder
-	sb.WriteString("([")
-	for i, op := range h.Ops {
-		if i > 0 {
-			sb.WriteString(";")
-		}
-		sb.WriteString("[" + strings.Join(Encode(op), ";") + "]")
+	p := h.Pools
+	var ops []string
+	for _, op := range h.Ops {
+		ops = append(ops, "["+strings.Join(p.Encode(op), ";")+"]")
 	}
-	sb.WriteString("],[")
-	for i, o := range h.Obs {
-		if i > 0 {
-			sb.WriteString(";")
-		}
-		fmt.Fprintf(&sb, "%d", o)
+	var nets, strs, obs []string
+	for _, n := range p.Nets {
+		nets = append(nets, fmt.Sprintf("%d;%s;%d", n.Fam, n.IP, n.Ones))
 	}
-	sb.WriteString("])")
-	return sb.String()
+	for _, s := range p.Strs {
+		var b []string
+		for i := 0; i < len(s); i++ {
+			b = append(b, fmt.Sprint(s[i]))
+		}
+		strs = append(strs, "["+strings.Join(b, ";")+"]")
+	}
+	for _, o := range h.Obs {
+		obs = append(obs, fmt.Sprint(o))
+	}
+	return "([" + strings.Join(nets, ";") + "],[" + strings.Join(strs, ";") + "],[" + strings.Join(p.Nums, ";") + "],[" +
+		strings.Join(ops, ";") + "],[" + strings.Join(obs, ";") + "])"
 }
 
 // CasesFile renders the complete cases.v.
 func CasesFile(hs []History) string {
 	var sb strings.Builder
 	sb.WriteString("From Coq Require Import List NArith.\nFrom MM Require Import Model.RouteTable.\nImport ListNotations.\nLocal Open Scope N_scope.\n")
-	sb.WriteString("Definition cases : list case := [\n")
+	var names []string
 	for i, h := range hs {
-		if i > 0 {
-			sb.WriteString(";\n")
-		}
-		sb.WriteString(CaseV(h))
+		fmt.Fprintf(&sb, "Definition c%d : case := %s.\n", i, CaseV(h))
+		names = append(names, fmt.Sprintf("c%d", i))
 	}
-	sb.WriteString("].\nDefinition M := Eval vm_compute in mismatches cases.\nPrint M.\n")
+	sb.WriteString("Definition cases : list case := [" + strings.Join(names, ";") + "].\n")
+	sb.WriteString("Definition M := Eval vm_compute in mismatches cases.\nPrint M.\n")
 	return sb.String()
 }
 
@@ -167,13 +220,11 @@ func Report(c *vh.Ctx, out *Outcome) {
 	}
 	c.Count(fmt.Sprintf("history-len:%d+", len(h.Ops)/100*100))
 	c.Res.Histogram["ops-changing-state"] += out.Mutated
-	for i := 0; i+1 < len(h.Obs) && i < len(h.Ops); i++ {
-	}
 	if out.Panic != "" {
 		c.Fail("panic", "implementation panicked: "+out.Panic, h)
 	}
 	for _, f := range out.Fails {
-		c.Fail(f.Sig, f.Detail, History{Name: h.Name, Profile: h.Profile, Ops: h.Ops})
+		c.Fail(f.Sig, f.Detail, History{Name: h.Name, Profile: h.Profile, Pools: h.Pools, Ops: h.Ops})
 	}
 }
 
@@ -185,22 +236,18 @@ func digestOps(h History) uint64 {
 	return x
 }
 
-// CountLookups adds hit/miss statistics of lookups to the histogram.
-func CountLookups(c *vh.Ctx, h History) {
+// CountLookups adds result statistics to the histogram.
+func CountLookups(c *vh.Ctx, o *Outcome) {
+	c.Res.Histogram["lookup:route"] += o.Hits
+	c.Res.Histogram["lookup:none"] += o.Misses
 	j := 0
-	for _, op := range h.Ops {
+	for _, op := range o.H.Ops {
 		if IsLookup(op.Code) {
-			if h.Obs[j] == 0 {
-				c.Count(fmt.Sprintf("lookup:%d:none", op.Code))
-			} else {
-				c.Count(fmt.Sprintf("lookup:%d:route", op.Code))
-			}
-			j++
-		} else {
-			if op.Code != OpTick {
-				c.Count(fmt.Sprintf("ret:%02d:%d", op.Code, min(h.Obs[j], 3)))
-			}
-			j += 2
+			continue
 		}
+		if op.Code != OpTick && j < len(o.H.Rets) {
+			c.Count(fmt.Sprintf("ret:%02d:%d", op.Code, min(o.H.Rets[j], 3)))
+		}
+		j++
 	}
 }
